@@ -178,8 +178,12 @@ func (v *Net) _dialUDP(network string, locAddr, remAddr *net.UDPAddr) (transport
 		locAddr = &net.UDPAddr{
 			IP: net.IPv4zero,
 		}
-	} else if locAddr.IP == nil {
-		locAddr.IP = net.IPv4zero
+	} else {
+		// never keep or modify the caller's address
+		locAddr = &net.UDPAddr{IP: locAddr.IP, Port: locAddr.Port, Zone: locAddr.Zone}
+		if locAddr.IP == nil {
+			locAddr.IP = net.IPv4zero
+		}
 	}
 
 	// validate address. do we have that address?
